@@ -241,8 +241,9 @@ Section Handlers.
       end
     end.
 
-  Definition decode_ocra_common (f : list (bytes * jv)) : option (bytes * bytes * bytes * option suite_cfg * option hex_input) :=
-    match dec_string (field "secret" f), dec_string (field "code" f), dec_string (field "raw_suite" f),
+  (** ocraGenerateReq has no Code field: encoding/json ignores the key "code" there, whatever its value is *)
+  Definition decode_ocra_common (with_code : bool) (f : list (bytes * jv)) : option (bytes * bytes * bytes * option suite_cfg * option hex_input) :=
+    match dec_string (field "secret" f), (if with_code then dec_string (field "code" f) else Some []), dec_string (field "raw_suite" f),
           dec_obj (field "suite" f), dec_obj (field "input" f) with
     | Some sec, Some code, Some raw, Some so, Some io =>
       let suite := match so with None => Some None | Some sf => match decode_suite sf with Some c => Some (Some c) | None => None end end in
@@ -257,7 +258,7 @@ Section Handlers.
   Definition ocra_generation (r : request) : response * nat :=
     if negb (is_post r) then not_allowed else
     match body_fields (r_body r) with None => decode_failed | Some f =>
-    match decode_ocra_common f with None => decode_failed | Some (sec, _, raw, suite, input) =>
+    match decode_ocra_common false f with None => decode_failed | Some (sec, _, raw, suite, input) =>
       match ocra_prepare sec [] raw false suite input with
       | inr e => e
       | inl (cfg, inp) =>
@@ -272,7 +273,7 @@ Section Handlers.
   Definition ocra_validation (r : request) : response * nat :=
     if negb (is_post r) then not_allowed else
     match body_fields (r_body r) with None => decode_failed | Some f =>
-    match decode_ocra_common f with None => decode_failed | Some (sec, code, raw, suite, input) =>
+    match decode_ocra_common true f with None => decode_failed | Some (sec, code, raw, suite, input) =>
       match ocra_prepare sec code raw true suite input with
       | inr e => e
       | inl (cfg, inp) =>
